@@ -102,6 +102,28 @@ class _Out(object):
         pass
 
 
+class _HttpShim(object):
+    """Stands in for the module supervisor.http_client inside supervisorctl (attribute of the
+    supervisorctl module, patched in the harness process only): `tail -f` / `maintail -f` must not
+    open real connections.  A GET is recorded as the pseudo call ('_http_get', [path])."""
+    def __init__(self, server):
+        self._server = server
+
+    def Listener(self):
+        return object()
+
+    def HTTPHandler(self, listener, username, password):
+        shim = self
+
+        class H(object):
+            def get(self, serverurl, path):
+                shim._server.calls.append(('_http_get', [path]))
+
+            def close(self):
+                pass
+        return H()
+
+
 def make_controller(server, url=DEFAULT_URL):
     """A real Controller over a real ClientOptions object (not realized: no config
     file, no argv) whose getServerProxy returns the scripted proxy."""
@@ -119,6 +141,7 @@ def make_controller(server, url=DEFAULT_URL):
     o.username = None
     o.password = None
     out = _Out()
+    supervisorctl.http_client = _HttpShim(server)
     c = supervisorctl.Controller(o, stdout=out)
     return c, out
 
